@@ -119,90 +119,7 @@ func runC07(p *core.Prog, r *core.Report) {
 	}
 	// ---- R5 lock lookup
 	r5 := r.Rule("C07.R5", "the lock lookup ends its search only at a LIVE object of the wanted type; objectLocked asks for LOCKs at the caller's epoch and ignores removed locks", 4)
-	if yfn := p.Func(mb + "associatedWithTypedObject$1"); yfn == nil {
-		r.Fatalf("C07.R5: associatedWithTypedObject range body not found")
-	} else {
-		isEpochLoad := func(v ssa.Value) bool {
-			u, ok := v.(*ssa.UnOp)
-			if !ok || u.Op != token.MUL {
-				return false
-			}
-			fv, ok := u.X.(*ssa.FreeVar)
-			return ok && fv.Name() == "currEpoch"
-		}
-		yg := []core.Guard{
-			core.G("is-wanted-type", core.IsTrue, mb+"isObjectType"),
-			core.G("not-expired", core.IsFalse, mb+"isExpired"),
-			{Name: "expiry-ignored", Comps: []core.Comp{{Result: -1, Kind: core.IsFalse}}, Value: func(_ *ssa.Function, v ssa.Value) bool {
-				bo, ok := v.(*ssa.BinOp)
-				if !ok {
-					return false
-				}
-				z, isZ := intConstOf(bo.Y)
-				return bo.Op == token.GTR && isEpochLoad(bo.X) && isZ && z == 0
-			}},
-		}
-		yd := []core.Derived{{Name: "live", Alts: [][]string{{"not-expired"}, {"expiry-ignored"}}}}
-		core.CheckEffectsFn(p, r5, yfn, core.EffectRule{Guards: yg, Derived: yd, Min: 1, Effect: func(p *core.Prog, in ssa.Instruction) (string, bool) {
-			ret, ok := in.(*ssa.Return)
-			if !ok || len(ret.Results) != 1 {
-				return "", false
-			}
-			if c, ok := ret.Results[0].(*ssa.Const); ok {
-				if b, isB := constBool(c); isB && !b {
-					return "stop-iteration", true
-				}
-				return "", false
-			}
-			return "stop-iteration?", true
-		}, Need: func(string) []string { return []string{"is-wanted-type", "live"} }})
-	}
-	if lfn := p.Func(mb + "objectLocked"); lfn == nil {
-		r.Fatalf("C07.R5: objectLocked not found")
-	} else {
-		sites := core.CallSites([]*ssa.Function{lfn}, func(s core.Site) bool { return s.Name == mb+"associatedWithTypedObject" })
-		for _, s := range sites {
-			a := s.Call.Common().Args
-			tc, isC := intConstOf(a[3])
-			r5.Check(core.ParamIndex(lfn, a[0]) == 0 && core.ParamIndex(lfn, a[2]) == 2 && isC && tc == tLock, core.FuncName(lfn)+"#lookup-args", p.InstrPos(s.Call),
-				"looks for LOCK objects of the given id at the caller's epoch", "objectLocked does not look for LOCKs of its own id at its own epoch")
-		}
-		if len(sites) == 0 {
-			r5.Bad(core.FuncName(lfn)+"#lookup-args", p.Pos(lfn.Pos()), "objectLocked no longer uses associatedWithTypedObject")
-		}
-		// returns true only if found and the lock itself is available
-		lg := []core.Guard{
-			{Name: "lock-found", Match: func(s core.Site) bool { return s.Name == mb+"associatedWithTypedObject" }, Comps: []core.Comp{{Result: 0, Kind: core.IsTrue}}},
-			core.Never("returns-whether-the-lock-itself-is-available"),
-		}
-		core.CheckEffectsFn(p, r5, lfn, core.EffectRule{Guards: lg, Min: 1, Effect: func(p *core.Prog, in ssa.Instruction) (string, bool) {
-			ret, ok := in.(*ssa.Return)
-			if !ok {
-				return "", false
-			}
-			if c, ok := ret.Results[0].(*ssa.Const); ok {
-				if b, isB := constBool(c); isB && !b {
-					return "", false
-				}
-				return "return-true", true
-			}
-			// must be `inGarbage(cursor, lockID) == statusAvailable`
-			bo, ok := ret.Results[0].(*ssa.BinOp)
-			if ok && bo.Op == token.EQL {
-				if c, isC := bo.X.(*ssa.Call); isC && core.CalleeName(c) == mb+"inGarbage" {
-					if k, isK := intConstOf(bo.Y); isK && k == stAvail {
-						return "return-lock-available", true
-					}
-				}
-			}
-			return "return-unrecognised", true
-		}, Need: func(desc string) []string {
-			if desc == "return-lock-available" {
-				return []string{"lock-found"}
-			}
-			return []string{"lock-found", "returns-whether-the-lock-itself-is-available"}
-		}})
-	}
+	lockLookupRule(p, r, r5, tLock, stAvail)
 	// ---- R3 engine
 	r3 := r.Rule("C07.R3", "engine.processExpiredObjects deletes only after isLocked said false, or failed (documented exception)", 1)
 	if efn := p.Func("(*pkg/local_object_storage/engine.StorageEngine).processExpiredObjects"); efn == nil {
@@ -259,4 +176,96 @@ func intConstOf(v ssa.Value) (int64, bool) {
 		return 0, false
 	}
 	return c.Int64(), true
+}
+
+// lockLookupRule: shared by C07.R5 and C01.R5.
+func lockLookupRule(p *core.Prog, r *core.Report, r5 *core.RuleH, tLock, stAvail int64) {
+	if yfn := p.Func(mb + "associatedWithTypedObject$1"); yfn == nil {
+		r.Fatalf("C07.R5: associatedWithTypedObject range body not found")
+	} else {
+		isEpochLoad := func(v ssa.Value) bool {
+			u, ok := v.(*ssa.UnOp)
+			if !ok || u.Op != token.MUL {
+				return false
+			}
+			fv, ok := u.X.(*ssa.FreeVar)
+			return ok && fv.Name() == "currEpoch"
+		}
+		yg := []core.Guard{
+			core.G("is-wanted-type", core.IsTrue, mb+"isObjectType"),
+			core.G("not-expired", core.IsFalse, mb+"isExpired"),
+			{Name: "expiry-ignored", Comps: []core.Comp{{Result: -1, Kind: core.IsFalse}}, Value: func(_ *ssa.Function, v ssa.Value) bool {
+				bo, ok := v.(*ssa.BinOp)
+				if !ok {
+					return false
+				}
+				z, isZ := intConstOf(bo.Y)
+				return bo.Op == token.GTR && isEpochLoad(bo.X) && isZ && z == 0
+			}},
+		}
+		yd := []core.Derived{{Name: "live", Alts: [][]string{{"not-expired"}, {"expiry-ignored"}}}}
+		core.CheckEffectsFn(p, r5, yfn, core.EffectRule{Guards: yg, Derived: yd, Min: 1, Effect: func(p *core.Prog, in ssa.Instruction) (string, bool) {
+			ret, ok := in.(*ssa.Return)
+			if !ok || len(ret.Results) != 1 {
+				return "", false
+			}
+			if c, ok := ret.Results[0].(*ssa.Const); ok {
+				if b, isB := constBool(c); isB && !b {
+					return "stop-iteration", true
+				}
+				return "", false
+			}
+			return "stop-iteration?", true
+		}, Need: func(string) []string { return []string{"is-wanted-type", "live"} }})
+	}
+	if lfn := p.Func(mb + "objectLocked"); lfn == nil {
+		r.Fatalf("C07.R5: objectLocked not found")
+	} else {
+		sites := core.CallSites([]*ssa.Function{lfn}, func(s core.Site) bool { return s.Name == mb+"associatedWithTypedObject" })
+		for _, s := range sites {
+			a := s.Call.Common().Args
+			if len(a) != 4 {
+				r5.Bad(core.FuncName(lfn)+"#lookup-args", p.InstrPos(s.Call), "objectLocked no longer passes (epoch, cursor, id, LOCK) to the lookup: the lookup cannot skip expired locks at the caller's epoch")
+				continue
+			}
+			tc, isC := intConstOf(a[3])
+			r5.Check(core.ParamIndex(lfn, a[0]) == 0 && core.ParamIndex(lfn, a[2]) == 2 && isC && tc == tLock, core.FuncName(lfn)+"#lookup-args", p.InstrPos(s.Call),
+				"looks for LOCK objects of the given id at the caller's epoch", "objectLocked does not look for LOCKs of its own id at its own epoch")
+		}
+		if len(sites) == 0 {
+			r5.Bad(core.FuncName(lfn)+"#lookup-args", p.Pos(lfn.Pos()), "objectLocked no longer uses associatedWithTypedObject")
+		}
+		// returns true only if found and the lock itself is available
+		lg := []core.Guard{
+			{Name: "lock-found", Match: func(s core.Site) bool { return s.Name == mb+"associatedWithTypedObject" }, Comps: []core.Comp{{Result: 0, Kind: core.IsTrue}}},
+			core.Never("returns-whether-the-lock-itself-is-available"),
+		}
+		core.CheckEffectsFn(p, r5, lfn, core.EffectRule{Guards: lg, Min: 1, Effect: func(p *core.Prog, in ssa.Instruction) (string, bool) {
+			ret, ok := in.(*ssa.Return)
+			if !ok {
+				return "", false
+			}
+			if c, ok := ret.Results[0].(*ssa.Const); ok {
+				if b, isB := constBool(c); isB && !b {
+					return "", false
+				}
+				return "return-true", true
+			}
+			// must be `inGarbage(cursor, lockID) == statusAvailable`
+			bo, ok := ret.Results[0].(*ssa.BinOp)
+			if ok && bo.Op == token.EQL {
+				if c, isC := bo.X.(*ssa.Call); isC && core.CalleeName(c) == mb+"inGarbage" {
+					if k, isK := intConstOf(bo.Y); isK && k == stAvail {
+						return "return-lock-available", true
+					}
+				}
+			}
+			return "return-unrecognised", true
+		}, Need: func(desc string) []string {
+			if desc == "return-lock-available" {
+				return []string{"lock-found"}
+			}
+			return []string{"lock-found", "returns-whether-the-lock-itself-is-available"}
+		}})
+	}
 }
